@@ -1075,6 +1075,13 @@ def gen_cp_cases(ctx, rng) -> list[dict]:
     sels += mixed[:ctx.scale(30, len(mixed))] + [lib.random_mixed_selection(rng) for _ in range(ctx.scale(10, 100))]
     cases = [{"kind": "cp", "route": "dash", "stream": "va", "manifest": mf, "mode": "vod", "drm": "all",
               "version": None, "la": None} for mf in ("hand_made.mpd", "manifest_e.mpd")]
+    # every system selected, locations restricted: the serialised selection of the advertised URLs matters
+    for i, drm in enumerate(["all-cenc", "all-pro", "all-cenc-pro", "all-moov", "playready-pro,marlin,clearkey-cenc",
+                             "clearkey-cenc,marlin,playready-cenc", "playready-cenc,clearkey-cenc,marlin-cenc",
+                             "marlin-pro,clearkey,playready-pro", "clearkey-moov,marlin-moov,playready-cenc"]):
+        cases.append({"kind": "cp", "route": "mps" if i % 4 == 3 else "dash", "stream": ["bbb", "mk", "va"][i % 3],
+                      "manifest": "hand_made.mpd" if i % 2 else ["manifest_e.mpd", "manifest_n.mpd", "manifest_h.mpd"][i % 3],
+                      "mode": ["vod", "live"][i % 2], "drm": drm, "version": None, "la": None})
     rng.shuffle(sels)
     n = ctx.scale(105, len(sels) * 3)
     for i in range(n):
@@ -1085,7 +1092,7 @@ def gen_cp_cases(ctx, rng) -> list[dict]:
                       "manifest": mf,
                       "mode": "vod" if mf in VOD_ONLY else rng.choice(["vod", "live"]), "drm": drm,
                       "version": rng.choice(lib.PR_VERSIONS),
-                      "la": (["playready_la_url", gen_url(rng, manifest_safe=True)] if rng.random() < .25 else None)})
+                      "la": (["playready__la_url", gen_url(rng, allow_pct_plus=False, manifest_safe=True)] if rng.random() < .25 else None)})
     return cases
 
 
@@ -1105,7 +1112,7 @@ def impl_cp(env, c) -> dict:
     adps = []
     periods = dict((f"p{i + 1}", pk) for i, (pk, _) in enumerate(env.mps_periods))
     try:
-        parsed = lib.read_manifest(r.data)
+        parsed = lib.read_manifest(r.data, "http://localhost" + url)
     except Exception as e:
         return {"status": 200, "url": url, "adps": [], "malformed_xml": str(e)}
     for adp in parsed:
@@ -1114,9 +1121,17 @@ def impl_cp(env, c) -> dict:
             continue
         inits = []
         for m in reps:
-            mps = (c11_env.MPS_NAME, periods[adp["period"]]) if c["route"] == "mps" and adp["period"] in periods else None
-            ri = client.get(lib.init_url(m, c["mode"], params, mps=mps))
-            inits.append({"name": m["name"], "status": ri.status_code, "data": ri.data if ri.status_code == 200 else b""})
+            # the init segment the manifest names: SegmentTemplate@initialization resolved against the
+            # BaseURL chain, query string kept exactly as advertised
+            adv = adp["init_urls"].get(m["name"])
+            if adv is not None:
+                iurl, how = lib.local_path(adv), "advertised"
+            else:
+                mps = (c11_env.MPS_NAME, periods[adp["period"]]) if c["route"] == "mps" and adp["period"] in periods else None
+                iurl, how = lib.init_url(m, c["mode"], params, mps=mps), "rebuilt (the manifest has no initialization URL)"
+            ri = client.get(iurl)
+            inits.append({"name": m["name"], "status": ri.status_code, "data": ri.data if ri.status_code == 200 else b"",
+                          "url": iurl, "how": how})
         adps.append({"adp": adp, "reps": reps, "inits": inits})
     return {"status": 200, "url": url, "adps": adps}
 
@@ -1223,6 +1238,16 @@ def oracle_cp(env, c, res=None) -> list[dict]:
             by_sys = {}
             for p in boxes:
                 by_sys.setdefault(p.system_id, []).append(p)
+            # (b) the init segment the manifest names carries a pssh for exactly the systems that
+            # were requested with the moov location
+            want_sys = {sid for name_, sid in (("playready", orc.PLAYREADY_SYSTEM_ID), ("clearkey", orc.CLEARKEY_PSSH_SYSTEM_ID))
+                        if "moov" in req.get(name_, ())}
+            known = {orc.PLAYREADY_SYSTEM_ID, orc.CLEARKEY_PSSH_SYSTEM_ID}
+            got_sys = {sid for sid in by_sys if sid in known}
+            if got_sys != want_sys:
+                fails.append({"what": f"{where}: the init segment the manifest names ({init.get('url')}) carries pssh boxes for "
+                                      f"{sorted(x.hex()[:8] for x in got_sys)}, the request {c['drm']!r} asks for moov data of "
+                                      f"{sorted(x.hex()[:8] for x in want_sys)}"})
             for cp in adp["cps"]:
                 s = lib.system_of_scheme(cp["scheme"])
                 sysid = orc.PLAYREADY_SYSTEM_ID if s == "playready" else orc.CLEARKEY_PSSH_SYSTEM_ID if s == "clearkey" else None
@@ -1244,7 +1269,9 @@ def ch_cp_elements(ctx, env) -> Channel:
         "playready__version none/1.0-4.0: the ContentProtection elements read with lxml vs the model's per-system "
         "hooks (contexts/playreadyHooks/clearkeyHooks/marlinHooks) and vs the property text (systems and locations "
         "as requested, cenc:default_KID = tenc default_KID of the stored track, embedded cenc:pssh / mspr:pro = "
-        "pssh box / PRO of the init segment fetched with the same parameters); non-trivial = an encrypted "
+        "pssh box / PRO of the init segment the manifest itself names – SegmentTemplate@initialization resolved "
+        "against the BaseURL chain with its advertised query string – and that init segment carries pssh boxes for "
+        "exactly the systems requested with moov); non-trivial = an encrypted "
         "adaptation set with at least one DRM system; distinct by (manifest url, adaptation set)"))
     rng = ctx.rng("cp")
     cases = gen_cp_cases(ctx, rng)
